@@ -304,7 +304,11 @@ func (V *Verifier) verifyFuncMode(fi *FuncInfo, fct *FuncContract, ceUnroll int)
 			gnames = append(gnames, g)
 		}
 		sort.Strings(gnames)
+		used := V.globalsUsed(fi, 2)
 		for _, g := range gnames {
+			if !used[g] {
+				continue // relevance: invariants of globals this function cannot reach are not assumed
+			}
 			for _, inv := range pc.Globals[g].Invariants {
 				env := fc.newSpecEnv(st, nil, nil, bodyPos, fc.Name+"/global:"+g)
 				st.facts = st.facts.push(env.evalBool(inv.Expr))
@@ -796,4 +800,39 @@ func goTypeByName(n string) types.Type {
 		return types.Typ[types.Int32]
 	}
 	return nil
+}
+
+// globalsUsed: names of package-level variables mentioned by a function body, following calls to
+// functions of the same package that have no contract (they are inlined) up to the given depth.
+func (V *Verifier) globalsUsed(fi *FuncInfo, depth int) map[string]bool {
+	out := map[string]bool{}
+	var visit func(fi *FuncInfo, d int)
+	seen := map[*FuncInfo]bool{}
+	visit = func(fi *FuncInfo, d int) {
+		if fi == nil || seen[fi] || fi.Decl.Body == nil {
+			return
+		}
+		seen[fi] = true
+		ast.Inspect(fi.Decl.Body, func(n ast.Node) bool {
+			id, ok := n.(*ast.Ident)
+			if !ok {
+				return true
+			}
+			switch o := fi.Pkg.Info.Uses[id].(type) {
+			case *types.Var:
+				if o.Pkg() != nil && o.Parent() == o.Pkg().Scope() {
+					out[o.Name()] = true
+				}
+			case *types.Func:
+				if d > 0 {
+					if c := V.contractFor(o); c == nil || c.Inline {
+						visit(V.funcInfo(o), d-1)
+					}
+				}
+			}
+			return true
+		})
+	}
+	visit(fi, depth)
+	return out
 }
